@@ -39,7 +39,7 @@ def gen_config(rng):
 def gen_case(rng, allow=None, n_max=6, deviations=False):
     k = rng.choice([1, 2, 3, 4, n_max])
     core = allow or ['length', 'length', 'chunked', 'chunked', 'close', 'length0', 'te+cl', 'overrun', 'nobody',
-                     'head', 'nobody+cl', 'head+cl', 'x-gzip', 'chunked-case']
+                     'head', 'nobody+cl', 'head+cl', 'x-gzip', 'chunked-case', 'badcl']
     seq = []
     for i in range(k):
         r = httpgen.gen_response(rng, allow=core)
